@@ -16,6 +16,8 @@ Inductive c05_case :=
 | H2MetaSeq (max_list : N) (blocks : list (N * list (N * list hfield))) (obs : list meta_res)
 (* ... with, per block, whether it opens with a dynamic table size update / ends inside a field *)
 | H2MetaSeq2 (max_list : N) (blocks : list (N * (bool * bool) * list (N * list hfield))) (obs : list meta_res)
+(* ... and frames the frame parser refuses in between; per ReadFrame: result, ErrorDetail() non-nil *)
+| H2MetaSeq3 (max_list : N) (evs : list fevent) (obs : list (meta_res * bool))
 (* one connection's header encoder: the peer's limit and, per valid exchange, the field list and
    whether the client refused it *)
 | H2EncSeq (limit : N) (xs : list (list hfield * bool))
@@ -187,6 +189,8 @@ Definition c05_check (c : c05_case) : bool :=
   | H2Meta mx sid frags obs => meta_res_eqb (h2_meta mx sid frags) obs
   | H2MetaSeq mx blocks obs => list_eqb meta_res_eqb (h2_meta_seq true mx blocks) obs
   | H2MetaSeq2 mx blocks obs => list_eqb meta_res_eqb (h2_meta_seq2 true (true, false) mx blocks) obs
+  | H2MetaSeq3 mx evs obs =>
+      list_eqb (fun a b => meta_res_eqb (fst a) (fst b) && Bool.eqb (snd a) (snd b)) (read_events true (true, false) false mx evs) obs
   | H2EncSeq limit xs => forallb (fun x => Bool.eqb (over_limit limit (fst x)) (snd x)) xs
   | H3Next body i obs rest =>
       let '(r, lft) := h3_parse_next_b body i in
